@@ -68,6 +68,75 @@ def replay_chain(prop):
         return RP.write_and_run(prop, job.name + "." + ob["name"], hdr, ['"TasmanianSparseGrid.hpp"', '<cmath>', '<algorithm>'], REPLAY_CHAIN, "  main_replay();", lib="sg", timeout=60)
     return rp
 
+REPLAY_DISC = r'''
+/* On the real library: grids with a domain transform; every point-taking query must agree with the same query of an untransformed copy at the pulled-back point. */
+int main_replay(){
+  using namespace TasGrid;
+  int bad = 0;
+  const char *names[3] = {"LocalPolynomial", "Wavelet", "Global"};
+  for (int fam = 0; fam < 3; fam++) {
+    TasmanianSparseGrid g = fam == 0 ? makeLocalPolynomialGrid(2, 1, 3, 1, rule_localp) : fam == 1 ? makeWaveletGrid(2, 1, 2, 1) : makeGlobalGrid(2, 1, 3, type_level, rule_clenshawcurtis);
+    TasmanianSparseGrid c = g;                                  /* canonical twin */
+    g.setDomainTransform({1.0, -2.0}, {3.0, 6.0});
+    { std::vector<double> p = c.getNeededPoints(), v(c.getNumNeeded()); for (size_t i = 0; i < v.size(); i++) v[i] = std::exp(0.4 * p[2*i] - 0.3 * p[2*i+1]); c.loadNeededValues(v); g.loadNeededValues(v); }
+    std::vector<double> xt = {1.3, 0.7, 2.6, 4.9, 1.9, -1.2}, xc(6);
+    for (int i = 0; i < 3; i++) { xc[2*i] = (xt[2*i] - 2.0) / 1.0; xc[2*i+1] = (xt[2*i+1] - 2.0) / 4.0; }
+    auto differ = [&](std::vector<double> const &a, std::vector<double> const &b)->bool{ if (a.size() != b.size()) return true; for (size_t i = 0; i < a.size(); i++) if (std::abs(a[i] - b[i]) > 1.E-11) return true; return false; };
+    std::vector<double> ya, yb; g.evaluateBatch(xt, ya); c.evaluateBatch(xc, yb);
+    if (differ(ya, yb)) { std::printf("%s: evaluateBatch differs from the canonical twin\n", names[fam]); bad++; }
+    g.evaluateHierarchicalFunctions(xt, ya); c.evaluateHierarchicalFunctions(xc, yb);
+    if (differ(ya, yb)) { std::printf("%s: evaluateHierarchicalFunctions differs from the canonical twin\n", names[fam]); bad++; }
+    for (int i = 0; i < 3; i++) { std::vector<double> wa = g.getInterpolationWeights(std::vector<double>{xt[2*i], xt[2*i+1]}), wb = c.getInterpolationWeights(std::vector<double>{xc[2*i], xc[2*i+1]});
+      if (differ(wa, wb)) { std::printf("%s: getInterpolationWeights differs from the canonical twin\n", names[fam]); bad++; } }
+    if (fam < 2) {
+      std::vector<int> pa, ia, pb, ib; std::vector<double> va, vb;
+      g.evaluateSparseHierarchicalFunctions(xt, pa, ia, va); c.evaluateSparseHierarchicalFunctions(xc, pb, ib, vb);
+      if (pa != pb || ia != ib || differ(va, vb)) { std::printf("%s: evaluateSparseHierarchicalFunctions (vector form) differs from the canonical twin (%zu vs %zu non-zeros)\n", names[fam], va.size(), vb.size()); bad++; }
+      int nza = g.evaluateSparseHierarchicalFunctionsGetNZ(xt.data(), 3), nzb = c.evaluateSparseHierarchicalFunctionsGetNZ(xc.data(), 3);
+      if (nza != nzb) { std::printf("%s: evaluateSparseHierarchicalFunctionsGetNZ %d vs %d\n", names[fam], nza, nzb); bad++; }
+      else { std::vector<int> qa(4), ja(nza), qb(4), jb(nzb); std::vector<double> wa(nza), wb(nzb);
+        g.evaluateSparseHierarchicalFunctionsStatic(xt.data(), 3, qa.data(), ja.data(), wa.data()); c.evaluateSparseHierarchicalFunctionsStatic(xc.data(), 3, qb.data(), jb.data(), wb.data());
+        if (qa != qb || ja != jb || differ(wa, wb)) { std::printf("%s: evaluateSparseHierarchicalFunctionsStatic differs from the canonical twin\n", names[fam]); bad++; } }
+    }
+  }
+  __CPROVER_assert(bad == 0, "C10 every point-taking query of a transformed grid equals the query of the canonical grid at the pulled-back points");
+  return 0;
+}
+'''
+def discipline_job(prop):
+    """every call that hands points to a family object inside a point-taking member of TasmanianSparseGrid passes the pulled-back points, never the caller's array"""
+    import re
+    CPP = "SparseGrids/TasmanianSparseGrid.cpp"
+    t = X.strip_comments(X.read_source(CPP))
+    calls, bad = [], []
+    for m in re.finditer(r'TasmanianSparseGrid::(\w+)\s*\(([^)]*)\)\s*(?:const\s*)?(?=\{)', t):
+        pm = re.search(r'(?:const\s+(?:double|float|FloatType|T)\s*\*?\s*|std::vector<\w+>\s*(?:const)?\s*&\s*|const\s+std::vector<\w+>\s*&\s*)(x|gpu_x)\b', m.group(2))
+        if not pm:
+            continue
+        raw = pm.group(1)
+        k = t.index("{", m.end() - 1); e = X.match_close(t, k); body = t[k:e + 1]
+        for c in re.finditer(r'(?:base|get<\w+>\(\))\s*->\s*(\w+)\s*\(', body):
+            ce = X.match_close(body, c.end() - 1, "(", ")")
+            args = body[c.end():ce]
+            ln = t.count("\n", 0, k + c.start()) + 1
+            calls.append((ln, m.group(1), c.group(1)))
+            rest = re.sub(r'formCanonicalPoints(?:GPU)?\s*\([^()]*(?:\([^()]*\)[^()]*)*\)', 'CANON', args)
+            if re.search(r'(?<![\w.>])%s\b' % raw, rest):
+                bad.append((ln, m.group(1), c.group(1)))
+    if len(calls) < 20:
+        raise X.ExtractionBreak("canonical-points scan found only %d calls into family objects from point-taking members: the scan no longer matches the sources" % len(calls))
+    src = '#include "tsg_shim.h"\nint tsg_exc;\nvoid h_discipline(void){\n'
+    for ln, fn, callee in calls:
+        src += '#line %d "%s"\n  __CPROVER_assert(%d, "C10 %s -> %s: the family object receives the pulled-back (canonical) points, not the caller\'s array");\n' % (ln, X.REPO + "/" + CPP, 0 if (ln, fn, callee) in bad else 1, fn, callee)
+    src += '  __CPROVER_assert(0, "VACUITY-CANARY");\n}\n'
+    def rp(job, ob, vals, wd):
+        hdr = "Replay through the public API of the real library.\nproperty %s job %s\nobligation %s: %s\nat %s" % (prop, job.name, ob["name"], ob["description"], ob["location"])
+        return RP.write_and_run(prop, job.name + "." + ob["name"], hdr, ['"TasmanianSparseGrid.hpp"', '<cmath>'], REPLAY_DISC, "  main_replay();", lib="sg", timeout=120)
+    return Job("transforms.canonical_discipline", src, "h_discipline", timeout=60, functions=["%s:%d %s -> %s" % (CPP, ln, fn, callee) for ln, fn, callee in calls],
+               info={"functions": [], "rules_fired": {"scan-family-calls": len(calls)}, "drops": ["syntactic scan (supporting static fact): argument lists of the calls into family objects; decided by the extractor, CBMC evaluates the flags"]}, replay=rp,
+               assumed=["a point array reaches a family object only as a direct argument of base-> / get<>()-> calls in TasmanianSparseGrid.cpp (GPU paths are scanned but cannot be replayed here)"],
+               label="every point-taking member of TasmanianSparseGrid hands the pulled-back points to the family object (%d calls)" % len(calls))
+
 def jobs(tier, seed, prop):
     R = X.Rules()
     enums = tables.cut_enum("TypeOneDRule", R)[0]
@@ -109,6 +178,7 @@ def jobs(tier, seed, prop):
                        assumed=["R13: the product is an uninterpreted deterministic function"],
                        label="%s: chain-rule scaling touches each entry once with the rate of its own dimension" % fn))
     if prop == "C10":
+        out.append(discipline_job(prop))
         Rd = X.Rules()
         dt, dinfo = transforms.emit_domain_inside(Rd)
         out.append(Job("transforms.domain_inside", pre + dt + cf.text(("harness",), ["h_domain_inside"]), "h_domain_inside", unwind=4, timeout=300, backends=[["--sat-solver", "cadical"], []],
